@@ -64,6 +64,7 @@ def run(ctx):
                     one(ctx, client_np, I, op, args, "object", meta, env, [], [])
     defaults_and_untyped(ctx)
     special_floats(ctx)
+    shared_attribute_element_name(ctx)
     answers = ctx.driver.ask(reqs)
     for ans, (meta, actual, spec) in zip(answers, metas):
         model = [SM.canon_info(x) for x in ans] if isinstance(ans, list) else ans
@@ -388,6 +389,36 @@ def special_floats(ctx):
         if [x[0] for x in texts] != wantn or bad:
             ctx.fail("a float value is not sent in the lexical form of its XSD type", meta, texts,
                      "INF / -INF / NaN / a numeral reading back equal, for: " + ", ".join(wantn))
+
+
+def shared_attribute_element_name(ctx):
+    """An inherited attribute and an element added by the derived type share one name: each is written by its own
+    declaration (the element as xsd:boolean text, the attribute as the string it is)."""
+    schema = ('<xsd:complexType name="B"><xsd:sequence><xsd:element name="a" type="xsd:string"/></xsd:sequence>'
+              '<xsd:attribute name="flag" type="xsd:string"/></xsd:complexType>'
+              '<xsd:complexType name="D"><xsd:complexContent><xsd:extension base="x:B"><xsd:sequence>'
+              '<xsd:element name="flag" type="xsd:boolean"/><xsd:element name="n" type="xsd:int"/></xsd:sequence>'
+              '</xsd:extension></xsd:complexContent></xsd:complexType>'
+              '<xsd:element name="f"><xsd:complexType><xsd:sequence><xsd:element name="o" type="x:D"/></xsd:sequence>'
+              '</xsd:complexType></xsd:element>')
+    client = wsdlkit.client(wsdlkit.wsdl_doc(schema, "f", None), nosend=True)
+    for mode in ("dict", "object"):
+        meta = {"stream": "shared-attribute-element-name", "mode": mode}
+        ctx.case(common.canon(meta), True)
+        try:
+            if mode == "dict":
+                o = {"a": "x", "flag": True, "n": 7, "_flag": "yes"}
+            else:
+                o = client.factory.create("{%s}D" % wsdlkit.TNS)
+                o.a, o.flag, o.n, o._flag = "x", True, 7, "yes"
+            env = wsdlkit.envelope_bytes(client.service.f(o))
+            on = xmlread.find1(xmlread.find1(xmlread.find1(xmlread.parse(env), "Body"), "f"), "o")
+            got = [[c["name"][1], c.get("text")] for c in on["children"]] + [["@flag", on["attrs"].get((None, "flag"))]]
+        except Exception as e:
+            got = "%s: %s" % (type(e).__name__, e)
+        want = [["a", "x"], ["flag", "true"], ["n", "7"], ["@flag", "yes"]]
+        if got != want:
+            ctx.fail("request differs from what the WSDL prescribes", meta, got, want)
 
 
 def one(ctx, client, I, op, args, mode, meta, env, reqs, metas):
